@@ -137,7 +137,13 @@ def run(prog):
                                 "neither tested with get(..) == None there nor drawn from the unassigned literals of a clause: a literal "
                                 "whose variable already has the opposite value flips it instead of reporting UNSAT"
                                 % (f.name, g.name, c2.line, show(a)[:40]))
-            if not sites:
+            if f.reachable:
+                # a public entry point cannot put the obligation on callers it does not know
+                out.append(inst("UG", key, VIOLATION, f, cs.line,
+                                "`%s` is public and assigns its literal without asking the model about that variable: decided on a "
+                                "variable that already has the opposite value (from a unit clause or an earlier decision) it flips the "
+                                "value instead of reporting UNSAT" % f.name))
+            elif not sites:
                 out.append(inst("UG", key, UNDECIDED, f, cs.line, "unguarded assignment to a parameter, and no caller found"))
             else:
                 out.append(inst("UG", key, VIOLATION if errs else OK, f, cs.line,
